@@ -54,7 +54,7 @@ CLAIM = dict(
          "pointer dereferences of boxed.rs/linked_list.rs are exercised (and run under Miri as supporting evidence), not proved. "
          "Excluded band page-16 < s < page: find_region recurses forever (Refuted/C15.v witness, replayed on the real allocator "
          "by the band scripts under a watchdog); also excluded: zero-size layouts with alignment > page. Miri (thorough "
-         "tier, evidence/C15_miri.json, aliasing checks off) finds no out-of-bounds/use-after-free/misaligned/uninitialised "
+         "tier, evidence_extra/C15_miri.json, aliasing checks off) finds no out-of-bounds/use-after-free/misaligned/uninitialised "
          "access or leak on 7 scripts; with Stacked or Tree Borrows enabled it flags CQueue::new handing each bucket list "
          "its own &mut-derived raw handle to the one allocator (experimental aliasing rules; observation outside C15).",
     technique="Coq invariant proof by induction over reachable allocator states (pairwise-disjointness up to permutation, "
@@ -354,7 +354,7 @@ def miri_support(timeout=1500):
     alloc.rs/boxed.rs/linked_list.rs for out-of-bounds, use-after-free, misalignment, uninitialised reads, double frees
     and leaks.  Aliasing-model checks are off (-Zmiri-disable-stacked-borrows): with them Miri reports that CQueue::new
     hands every bucket list its own `&mut`-derived raw handle to the one allocator (experimental Stacked/Tree Borrows
-    rules; recorded as an observation).  Result is written to evidence/C15_miri.json."""
+    rules; recorded as an observation).  Result is written to evidence_extra/C15_miri.json."""
     import json, time
     hdir = os.environ.get("VERIF_HARNESS_DIR", os.path.join(VERIF, "harness"))
     res = dict(tool="cargo +nightly miri run --offline --bin alloc", flags="-Zmiri-disable-isolation -Zmiri-disable-stacked-borrows",
@@ -374,7 +374,8 @@ def miri_support(timeout=1500):
         res.update(clean=None, unavailable=str(e)[:200])
     res["wall_s"] = round(time.time() - t0, 1)
     try:
-        with open(os.path.join(VERIF, "evidence", "C15_miri.json"), "w") as f:
+        os.makedirs(os.path.join(VERIF, "evidence_extra"), exist_ok=True)
+        with open(os.path.join(VERIF, "evidence_extra", "C15_miri.json"), "w") as f:
             json.dump(res, f, indent=1)
     except OSError:
         pass
